@@ -610,6 +610,7 @@ done:
 	r.AddStates(states)
 	r.AddTransitions(transitions)
 	c11SharedFile(c, w, maxDepth)
+	c11Editions(c, maxDepth)
 	c11Conformance(c, w)
 }
 
@@ -799,7 +800,223 @@ func c11SharedFile(c *Ctx, w *bWorld, maxDepth int) {
 	r.Set("shared_file_world", map[string]any{"states": states, "transitions": transitions, "closed": len(frontier) == 0, "what": "one descriptor file declaring S3 and S4; back-end x4 lists only S3, x5 only S4; histories over RegisterConn/DropConn of both; 12 probes x every handler pick; a request must only be sent to a back-end that lists its service"})
 }
 
+// ---- third world: two editions of one schema behind one method ----------------------------------
+//
+// Back-ends e1 and e2 both serve vbe.S5. Their descriptor files are wire- and JSON-compatible
+// editions of each other: the same messages, fields, numbers and types, declared in another
+// order (e2 also knows one more field). larking keeps the bindings of the first registrant; who
+// answers a request - and after a drop, who is left - must still get every URL and body value
+// in the field it was sent for.
+
+const (
+	opRegE1 = iota
+	opRegE2
+	opDropE1
+	opDropE2
+	nOpsE
+)
+
+var opNamesE = []string{"RegisterConn(e1: edition 1 of vbe.S5)", "RegisterConn(e2: edition 2, fields declared in another order)", "DropConn(e1)", "DropConn(e2)"}
+
+func c11Edition(second bool) protoreflect.FileDescriptor {
+	req := dyn.Msg("EReq", dyn.Str("s", 1), dyn.Str("t", 2), dyn.Str("u", 3))
+	rsp := dyn.Msg("ERsp", dyn.Str("s", 1))
+	if second {
+		req = dyn.Msg("EReq", dyn.Str("extra", 9), dyn.Str("u", 3), dyn.Str("t", 2), dyn.Str("s", 1))
+	}
+	f := dyn.File{Name: "vbe/s5.proto", Pkg: "vbe", Messages: []*descriptorpb.DescriptorProto{req, rsp}, Services: []dyn.Service{{Name: "S5", Methods: []dyn.Method{
+		{Name: "M1", In: "EReq", Out: "ERsp", Rule: &dyn.Rule{Kind: "get", Path: "/s5/{s}"}},
+		{Name: "M2", In: "EReq", Out: "ERsp", Rule: &dyn.Rule{Kind: "post", Path: "/s5/{t}", Body: "*"}},
+	}}}}
+	fd, _, err := f.Build()
+	if err != nil {
+		panic(err)
+	}
+	return fd
+}
+
+type c11CaseE struct {
+	World   string   `json:"world"`
+	History []int    `json:"history"`
+	Ops     []string `json:"ops"`
+}
+
+func c11CheckE(history []int) (viol []report.Violation, key string, picks int64) {
+	m, err := larking.NewMux()
+	if err != nil {
+		panic(err)
+	}
+	var e [2]*env.Backend
+	for i := range e {
+		name := fmt.Sprintf("e%d", i+1)
+		b := env.NewBackend(name, []protoreflect.FileDescriptor{c11Edition(i == 1)}, []string{"vbe.S5"})
+		b.Unary = func(ctx context.Context, method string, req, reply proto.Message) error {
+			in := req.ProtoReflect()
+			get := func(f string) string { return in.Get(in.Descriptor().Fields().ByName(protoreflect.Name(f))).String() }
+			r := reply.ProtoReflect()
+			r.Set(r.Descriptor().Fields().ByName("s"), protoreflect.ValueOfString(fmt.Sprintf("%s %s s=%s t=%s u=%s", name, method, get("s"), get("t"), get("u"))))
+			return nil
+		}
+		e[i] = b
+		defer b.Conn().Close()
+	}
+	reg := [2]bool{}
+	mk := func(oracle, note string) {
+		var ops []string
+		for _, o := range history {
+			ops = append(ops, opNamesE[o])
+		}
+		viol = append(viol, report.Violation{Oracle: oracle, Key: fmt.Sprintf("%s editions history=%v", oracle, history), Case: c11CaseE{World: "editions", History: append([]int(nil), history...), Ops: ops}, Note: note})
+	}
+	for step, op := range history {
+		var got, want string
+		p, txt := guard(func() {
+			switch op {
+			case opRegE1, opRegE2:
+				if err := m.RegisterConn(context.Background(), e[op-opRegE1].Conn()); err != nil {
+					got = "error: " + err.Error()
+				}
+				reg[op-opRegE1] = true
+			case opDropE1, opDropE2:
+				got = fmt.Sprint(m.DropConn(context.Background(), e[op-opDropE1].Conn()))
+				want = fmt.Sprint(reg[op-opDropE1])
+				reg[op-opDropE1] = false
+			}
+		})
+		if step != len(history)-1 {
+			continue
+		}
+		if p {
+			mk("operation-panic", opNamesE[op]+": "+txt)
+			return viol, "panicked", picks
+		}
+		if got != want {
+			mk("operation-result", fmt.Sprintf("%s returned %q, reference says %q", opNamesE[op], got, want))
+		}
+	}
+	type probe struct {
+		name, verb, path, query, body string
+		method, s, t, u               string
+	}
+	probes := []probe{
+		{"GET /s5/pv?t=qt&u=qu", "GET", "/s5/pv", "t=qt&u=qu", "", "/vbe.S5/M1", "pv", "qt", "qu"},
+		{"GET /s5/pv", "GET", "/s5/pv", "", "", "/vbe.S5/M1", "pv", "", ""},
+		{"POST /s5/pt {s:bs,u:bu}", "POST", "/s5/pt", "", `{"s":"bs","u":"bu"}`, "/vbe.S5/M2", "bs", "pt", "bu"},
+		{"POST /vbe.S5/M1 {s:bs,t:bt,u:bu} (implicit)", "POST", "/vbe.S5/M1", "", `{"s":"bs","t":"bt","u":"bu"}`, "/vbe.S5/M1", "bs", "bt", "bu"},
+	}
+	live := reg[0] || reg[1]
+	for _, pr := range probes {
+		maxN := 1
+		for pick := 0; pick < maxN; pick++ {
+			vrand.Override = func(n int) int {
+				if n > maxN {
+					maxN = n
+				}
+				if pick < n {
+					return pick
+				}
+				return 0
+			}
+			var hdr http.Header
+			if pr.body != "" {
+				hdr = http.Header{"Content-Type": {"application/json"}}
+			}
+			r := doHTTP(m, pr.verb, pr.path, pr.query, hdr, reqBody{Data: []byte(pr.body), CL: -2})
+			vrand.Override = nil
+			picks++
+			if r.Panicked {
+				mk("probe-panic", pr.name+": "+r.Panic)
+				break
+			}
+			if !live {
+				if r.HTTPCode == 200 {
+					mk("served-by-dropped-or-unregistered", fmt.Sprintf("%s answered 200 although vbe.S5 has no live back-end", pr.name))
+				}
+				continue
+			}
+			if r.HTTPCode != 200 {
+				mk("live-method-unserved", fmt.Sprintf("%s (handler pick %d): status %d although vbe.S5 is live (e1=%v e2=%v): %s", pr.name, pick, r.HTTPCode, reg[0], reg[1], truncS(string(r.Body), 120)))
+				continue
+			}
+			msg := dynamicpb.NewMessage(c11Edition(false).Messages().ByName("ERsp"))
+			if err := protojson.Unmarshal(r.Body, msg); err != nil {
+				mk("reply-undecodable", pr.name+": "+err.Error())
+				continue
+			}
+			got := msg.Get(msg.Descriptor().Fields().ByName("s")).String()
+			owner, rest, _ := strings.Cut(got, " ")
+			if (owner == "e1" && !reg[0]) || (owner == "e2" && !reg[1]) {
+				mk("served-by-dropped-or-unregistered", fmt.Sprintf("%s answered by %s, which is not registered", pr.name, owner))
+			}
+			want := fmt.Sprintf("%s s=%s t=%s u=%s", pr.method, pr.s, pr.t, pr.u)
+			if rest != want {
+				mk("back-end-received-another-message", fmt.Sprintf("%s (handler pick %d, answered by %s): the back-end received [%s], the request says [%s]", pr.name, pick, owner, rest, want))
+			}
+		}
+	}
+	fp := larking.VerifFingerprint(m.VerifSnapshot())
+	names := map[string]string{fmt.Sprintf("%p", e[0].Conn()): "e1", fmt.Sprintf("%p", e[1].Conn()): "e2"}
+	idx := map[string]string{}
+	fp = ptrRe.ReplaceAllStringFunc(fp, func(p string) string {
+		if n, ok := names[p]; ok {
+			return n
+		}
+		if v, ok := idx[p]; ok {
+			return v
+		}
+		idx[p] = fmt.Sprintf("h%d", len(idx))
+		return idx[p]
+	})
+	return viol, fmt.Sprintf("%v||%s", reg, fp), picks
+}
+
+func c11Editions(c *Ctx, maxDepth int) {
+	r := c.Run
+	seen := map[string]bool{}
+	_, k0, _ := c11CheckE(nil)
+	seen[k0] = true
+	frontier := [][]int{nil}
+	var states, transitions int64 = 1, 0
+	for depth := 1; depth <= maxDepth && len(frontier) > 0; depth++ {
+		var next [][]int
+		for _, h0 := range frontier {
+			for op := 0; op < nOpsE; op++ {
+				h := append(append([]int{}, h0...), op)
+				viol, k, picks := c11CheckE(h)
+				transitions++
+				r.Eval(picks)
+				for _, v := range viol {
+					r.Violation(v)
+					r.Outcome("FAIL:" + v.Oracle)
+				}
+				if len(viol) > 0 || seen[k] {
+					continue
+				}
+				r.Outcome("editions transition-ok:" + opNamesE[op])
+				seen[k] = true
+				states++
+				r.Distinct("editions|" + k)
+				next = append(next, h)
+			}
+		}
+		frontier = next
+	}
+	r.AddStates(states)
+	r.AddTransitions(transitions)
+	r.Set("editions_world", map[string]any{"states": states, "transitions": transitions, "closed": len(frontier) == 0, "what": "two back-ends serving vbe.S5 from two wire-compatible editions of its schema (fields declared in another order, one extra field); histories over RegisterConn/DropConn of both; 4 probes (path + query, path only, path + JSON body, implicit route) x every handler pick; the answering back-end must have received every value in the field it was sent for"})
+}
+
 func replayC11(c *Ctx, v report.Violation) {
+	var te c11CaseE
+	if remarshal(v.Case, &te) && te.World == "editions" {
+		viol, _, _ := c11CheckE(te.History)
+		fmt.Printf("replay: editions history=%v -> %d violations\n", te.Ops, len(viol))
+		for _, x := range viol {
+			fmt.Printf("replay: %s: %s\n", x.Oracle, truncS(x.Note, 300))
+			c.Run.Violation(x)
+		}
+		return
+	}
 	var tx c11CaseX
 	if remarshal(v.Case, &tx) && tx.World == "shared-file" {
 		w := newBWorld()
